@@ -336,9 +336,10 @@ def _nonempty_loop(ctx, f, g, lp):
     head = [n for n in g.nodes if n.kind == "join" and n.ast is lp]
     if not head:
         return False
+    from .common import nonempty_fact
     for ast, val, en in g.dom_edges(head[0]):
         c = canon(ast)
-        if c[0] == "call" and c[1] == "empty" and len(c) == 3 and c[2] == cont and val is False:
+        if isinstance(val, bool) and nonempty_fact(c, val) == cont:
             ws = [w for w in var_write_nodes(ctx, f, [cont[1]])]
             stable = True
             for w in ws:
